@@ -151,11 +151,13 @@ def check_czt_axis(dom, ev_b, ev_H, ev_a, spec, alpha, K, norm=True, shift_taken
     zero = Rat(R.const(0))
     # ---- pre-chirp b
     b = ev_b
+    # what this model cannot read (a chirp that is not a vector over the index it expects, a filter laid out otherwise than as two
+    # chirp segments around a gap) is a refusal, not an observation: the callers defer to the decision on values
     if not isinstance(b, Vec) or b.idx != iN:
-        return [(False, 'axis %s pre-chirp is not a vector over the input index of this axis: %r' % (spec.name, b))]
+        raise AnalysisError('chirp model: axis %s pre-chirp is not a vector over the input index of this axis: %r' % (spec.name, b))
     ea = exp_arg(dom, b.elem)
     if ea is None:
-        return [(False, 'axis %s pre-chirp is not factor x exp(phase)' % spec.name)]
+        raise AnalysisError('chirp model: axis %s pre-chirp is not factor x exp(phase)' % spec.name)
     arg, fac = ea
     n_coord = Rat(R.atom(iN)) - half(dom, N)
     want = -I * pi * alpha * n_coord * n_coord
@@ -165,9 +167,11 @@ def check_czt_axis(dom, ev_b, ev_H, ev_a, spec, alpha, K, norm=True, shift_taken
     # ---- filter h (before FFT)
     H = ev_H
     if not (isinstance(H, PieceVec) and H.fft):
-        return out + [(False, 'axis %s chirp filter is not the FFT of a piecewise vector' % spec.name)]
+        raise AnalysisError('chirp model: axis %s chirp filter is not the FFT of a piecewise vector' % spec.name)
     out.append((R_(dom, H.n) == R_(dom, K), 'axis %s filter length %s == convolution length %s' % (spec.name, R_(dom, H.n).key(), R_(dom, K).key())))
-    out.append((seg_bounds_ok(dom, H, K, M, N), 'axis %s filter segments tile [0,M) [M,K-N+1) [K-N+1,K)' % spec.name))
+    if not seg_bounds_ok(dom, H, K, M, N):
+        raise AnalysisError('chirp model: axis %s filter is not stored as the segments [0,M) [M,K-N+1) [K-N+1,K) (%d stores)' % (spec.name, len(H.segs)))
+    out.append((True, 'axis %s filter segments tile [0,M) [M,K-N+1) [K-N+1,K)' % spec.name))
     cprime = half(dom, N) - half(dom, M) - R_(dom, spec.shift)       # lag offset so that output coord = t - M//2 - shift
     iN1 = dom.idx_atom(Sym(R_(dom, N) - 1))
     for lo, hi, val in H.segs:
@@ -175,8 +179,7 @@ def check_czt_axis(dom, ev_b, ev_H, ev_a, spec, alpha, K, norm=True, shift_taken
         if isinstance(val, Vec):
             ea = exp_arg(dom, val.elem)
             if ea is None:
-                out.append((False, 'axis %s filter segment is not exp(phase)' % spec.name))
-                continue
+                raise AnalysisError('chirp model: axis %s filter segment is not exp(phase)' % spec.name)
             arg, fac = ea
             if rl is not None and rl.is_zero():
                 lag = Rat(R.atom(val.idx)) + cprime
@@ -194,10 +197,10 @@ def check_czt_axis(dom, ev_b, ev_H, ev_a, spec, alpha, K, norm=True, shift_taken
     # ---- post-chirp a
     a = ev_a
     if not isinstance(a, Vec) or a.idx != iM:
-        return out + [(False, 'axis %s post-chirp is not a vector over the output index of this axis: %r' % (spec.name, a))]
+        raise AnalysisError('chirp model: axis %s post-chirp is not a vector over the output index of this axis: %r' % (spec.name, a))
     ea = exp_arg(dom, a.elem)
     if ea is None:
-        return out + [(False, 'axis %s post-chirp is not exp(phase)' % spec.name)]
+        raise AnalysisError('chirp model: axis %s post-chirp is not exp(phase)' % spec.name)
     arg, fac = ea
     out.append((fac == 1, 'axis %s post-chirp has unit modulus factor' % spec.name))
     if not shift_taken:
